@@ -155,6 +155,12 @@ theorem gen_methods_delegate :
 theorem gen_methods_stateless : Generated.C13.interferogramSpectralMethodsStateless = true := by
   decide
 
+/-- no helper of `fttools` / `coordinates` whose returned array a routine of `interferogram.py` writes into in place
+(`render_synthetic_surface` overwrites the zero-frequency element of the axis `forward_ft_unit` hands it) is memoised: every call
+gets its own array, so a synthesis call cannot change the frequency axes a later `psd` / `bandlimited_rms` sees -/
+theorem gen_helper_results_not_shared : Generated.C13.helperResultsWrittenInPlaceAreNotMemoised = true := by
+  decide
+
 /-! ## the spectrum sits on the returned axes -/
 
 /-- the spectrum returned by `psd` sits on the returned axes: the sample displayed at position `i` has
@@ -345,6 +351,85 @@ theorem band_monotone (m n : ℕ) (dy dx : ℝ) (hdy : 0 ≤ dy) (hdx : 0 ≤ dx
   · rw [if_neg h]; split
     · exact hP i j hi hj
     · exact le_refl 0
+
+/-! ## degenerate bands and the default edges -/
+
+/-- the band-limited mean square depends on the band only through WHICH samples it contains (any steps, any PSD) -/
+theorem band_congr (m n : ℕ) (dy dx : ℝ) (r P : ℕ → ℕ → ℝ) (a c a' c' : ℝ)
+    (h : ∀ i j, i < m → j < n → ((a ≤ r i j ∧ r i j ≤ c) ↔ (a' ≤ r i j ∧ r i j ≤ c'))) :
+    brmsSq rlt m n dy dx a c r P = brmsSq rlt m n dy dx a' c' r P := by
+  unfold brmsSq
+  rw [C13L.trapz2_weights, C13L.trapz2_weights]
+  congr 1
+  refine sum_congr rfl fun i hi => sum_congr rfl fun j hj => ?_
+  rw [bandMask_eq, bandMask_eq]
+  have := h i j (mem_range.mp hi) (mem_range.mp hj)
+  by_cases hh : a ≤ r i j ∧ r i j ≤ c
+  · rw [if_pos hh, if_pos (this.mp hh)]
+  · rw [if_neg hh, if_neg (fun h' => hh (this.mpr h'))]
+
+/-- an inverted band (`flow > fhigh`) contains no sample: the band-limited RMS is 0 -/
+theorem band_inverted_zero (m n : ℕ) (dy dx : ℝ) (r P : ℕ → ℕ → ℝ) (a c : ℝ) (hac : c < a) :
+    brmsSq rlt m n dy dx a c r P = 0 := by
+  unfold brmsSq
+  rw [C13L.trapz2_weights]
+  have : ∀ i j, bandMask rlt a c r P i j = 0 := by
+    intro i j; rw [bandMask_eq, if_neg]; intro h; linarith [h.1, h.2]
+  simp [this]
+
+/-- a band lying entirely above every sample radius contains no sample -/
+theorem band_beyond_samples_zero (m n : ℕ) (dy dx : ℝ) (r P : ℕ → ℕ → ℝ) (a c : ℝ)
+    (ha : ∀ i j, i < m → j < n → r i j < a) : brmsSq rlt m n dy dx a c r P = 0 := by
+  unfold brmsSq
+  rw [C13L.trapz2_weights]
+  have : ∀ i ∈ range m, ∀ j ∈ range n, tw m i * tw n j * bandMask rlt a c r P i j = 0 := by
+    intro i hi j hj; rw [bandMask_eq, if_neg, mul_zero]
+    intro h; linarith [h.1, ha i j (mem_range.mp hi) (mem_range.mp hj)]
+  rw [sum_eq_zero (fun i hi => sum_eq_zero (this i hi)), mul_zero]
+
+/-- the defaults: any lower edge at or below every sample radius (the default 0 for radii >= 0, or a negative one) and any upper
+    edge at or above every sample radius (the default `r.max()`, or anything larger) give the SAME, full-band, value -/
+theorem band_defaults_full (m n : ℕ) (dy dx : ℝ) (r P : ℕ → ℕ → ℝ) (a c a' c' : ℝ)
+    (ha : ∀ i j, i < m → j < n → a ≤ r i j) (ha' : ∀ i j, i < m → j < n → a' ≤ r i j)
+    (hc : ∀ i j, i < m → j < n → r i j ≤ c) (hc' : ∀ i j, i < m → j < n → r i j ≤ c') :
+    brmsSq rlt m n dy dx a c r P = brmsSq rlt m n dy dx a' c' r P ∧
+    brmsSq rlt m n dy dx a c r P = trapz2 m n dy dx P := by
+  refine ⟨band_congr m n dy dx r P a c a' c' fun i j hi hj =>
+    ⟨fun _ => ⟨ha' i j hi hj, hc' i j hi hj⟩, fun _ => ⟨ha i j hi hj, hc i j hi hj⟩⟩, ?_⟩
+  unfold brmsSq
+  rw [C13L.trapz2_weights, C13L.trapz2_weights]
+  congr 1
+  refine sum_congr rfl fun i hi => sum_congr rfl fun j hj => ?_
+  rw [bandMask_eq, if_pos ⟨ha i j (mem_range.mp hi) (mem_range.mp hj), hc i j (mem_range.mp hi) (mem_range.mp hj)⟩]
+
+/-- one-sided defaults: replacing only the upper edge by any value at or above every sample radius does not change the value -/
+theorem band_upper_default (m n : ℕ) (dy dx : ℝ) (r P : ℕ → ℕ → ℝ) (a c c' : ℝ)
+    (hc : ∀ i j, i < m → j < n → r i j ≤ c) (hc' : ∀ i j, i < m → j < n → r i j ≤ c') :
+    brmsSq rlt m n dy dx a c r P = brmsSq rlt m n dy dx a c' r P :=
+  band_congr m n dy dx r P a c a c' fun i j hi hj =>
+    ⟨fun h => ⟨h.1, hc' i j hi hj⟩, fun h => ⟨h.1, hc i j hi hj⟩⟩
+
+/-- ... and only the lower edge by any value at or below every sample radius -/
+theorem band_lower_default (m n : ℕ) (dy dx : ℝ) (r P : ℕ → ℕ → ℝ) (a a' c : ℝ)
+    (ha : ∀ i j, i < m → j < n → a ≤ r i j) (ha' : ∀ i j, i < m → j < n → a' ≤ r i j) :
+    brmsSq rlt m n dy dx a c r P = brmsSq rlt m n dy dx a' c r P :=
+  band_congr m n dy dx r P a c a' c fun i j hi hj =>
+    ⟨fun h => ⟨ha' i j hi hj, h.2⟩, fun h => ⟨ha i j hi hj, h.2⟩⟩
+
+/-- non-vacuity of the hypotheses above: radii 0, 1, 1, sqrt 2 -> every radius lies in [0, 2] and in [-1, 5]; the band [3, 4] lies above all of them -/
+example : ∃ r : ℕ → ℕ → ℝ, (∀ i j, i < 2 → j < 2 → (0 : ℝ) ≤ r i j) ∧ (∀ i j, i < 2 → j < 2 → (-1 : ℝ) ≤ r i j) ∧
+    (∀ i j, i < 2 → j < 2 → r i j ≤ 2) ∧ (∀ i j, i < 2 → j < 2 → r i j ≤ 5) ∧ (∀ i j, i < 2 → j < 2 → r i j < 3) :=
+  ⟨fun i j => ((i : ℝ) + j) / 2, by
+    have key : ∀ i j : ℕ, i < 2 → j < 2 → (0 : ℝ) ≤ ((i : ℝ) + j) / 2 ∧ ((i : ℝ) + j) / 2 ≤ 1 := by
+      intro i j hi hj
+      have h1 : (i : ℝ) ≤ 1 := by exact_mod_cast Nat.lt_succ_iff.mp hi
+      have h2 : (j : ℝ) ≤ 1 := by exact_mod_cast Nat.lt_succ_iff.mp hj
+      have h3 : (0 : ℝ) ≤ i := Nat.cast_nonneg i
+      have h4 : (0 : ℝ) ≤ j := Nat.cast_nonneg j
+      constructor <;> linarith
+    refine ⟨fun i j hi hj => (key i j hi hj).1, fun i j hi hj => by linarith [(key i j hi hj).1],
+      fun i j hi hj => by linarith [(key i j hi hj).2], fun i j hi hj => by linarith [(key i j hi hj).2],
+      fun i j hi hj => by linarith [(key i j hi hj).2]⟩⟩
 
 /-- adjacent bands add in quadrature up to the samples lying exactly on the common edge, which both
 closed bands contain (inclusion–exclusion; nothing is assumed about where the sample radii fall) -/
